@@ -20,6 +20,7 @@ import (
 	"os/exec"
 	"path/filepath"
 	"runtime"
+	"runtime/debug"
 	"sort"
 	"strings"
 	"sync"
@@ -451,6 +452,60 @@ func shortWrites(base string, scenario string, size int, seed int64) {
 	}
 }
 
+// ---------- many failed Puts in one process ----------
+
+// failedPutBurst: a process in which Put fails again and again (a full disk, a source that keeps failing)
+// must go on serving the entries it has. The descriptor limit is lowered to a little above current use
+// and the collector is switched off for the duration (a finalizer closing a forgotten file would hide
+// the leak until the day it does not run in time); both are restored before anything else runs.
+func failedPutBurst(base string) {
+	e, err := setup(base, atomic.AddInt64(&caseCounter, 1), "new", 4096, 77, false)
+	if err != nil {
+		run.Inconclusive("setup: " + err.Error())
+		return
+	}
+	defer os.RemoveAll(e.dir)
+	ents, _ := os.ReadDir("/proc/self/fd")
+	var old syscall.Rlimit
+	if syscall.Getrlimit(syscall.RLIMIT_NOFILE, &old) != nil {
+		return
+	}
+	lim := old
+	lim.Cur = uint64(len(ents) + 40)
+	if lim.Cur > old.Max || syscall.Setrlimit(syscall.RLIMIT_NOFILE, &lim) != nil {
+		return
+	}
+	gc := debug.SetGCPercent(-1)
+	defer func() {
+		debug.SetGCPercent(gc)
+		syscall.Setrlimit(syscall.RLIMIT_NOFILE, &old)
+		runtime.GC()
+	}()
+	c, _ := cache.Open(e.dir)
+	p := e.newPayload()
+	for i := 0; i < 150; i++ {
+		var id cache.ActionID
+		copy(id[:], fmt.Sprintf("burst-%04d......................", i))
+		fresh := append([]byte(fmt.Sprintf("burst %d ", i)), p...)
+		h := &hostile{data: fresh, failPass: 2, failAt: (i * 37) % len(fresh), mode: []string{"error", "eof", "flip"}[i%3], extra: []byte("EXTRA")}
+		_, _, perr := c.Put(id, h)
+		run.Eval(1)
+		if perr == nil {
+			continue
+		}
+		for name, want := range map[string][]byte{"u1": e.unrelated[aid("u1")], "u2": e.unrelated[aid("u2")]} {
+			got, _, gerr := c.GetBytes(aid(name))
+			if gerr != nil || !bytes.Equal(got, want) {
+				run.Violation(fmt.Sprintf("unrelated-entry-unreadable failed-put-burst n=%d", i+1),
+					fmt.Sprintf("unrelated-entry-unreadable: after %d failed Puts in this process entry %q cannot be read any more: %v (descriptor limit %d, %d in use before the burst)", i+1, name, gerr, lim.Cur, len(ents)),
+					fcase{"unrelated-entry-unreadable", "failed-put-burst", 4096, fmt.Sprintf("%d Puts whose source fails in the copy pass", i+1), nil, nil, fmt.Sprint(gerr)})
+				return
+			}
+		}
+	}
+	run.Count("failed_puts_in_a_burst_with_a_low_descriptor_limit", 150)
+}
+
 // ---------- index write cut short, then halt ----------
 
 // indexCuts: the one write that publishes an entry stops after L bytes (a real short write: RLIMIT_FSIZE is
@@ -863,7 +918,7 @@ func main() {
 	vlib.Main("C12", "fault_enumeration", 15*time.Minute, func(r *vlib.Run) {
 		run = r
 		childBin = filepath.Join(os.Getenv("VERIF_BUILD"), "c12child")
-		r.Rule("configurations = scenario (new, overwrite, restore-same with a sharing entry, stale index entry, pre-damaged output: wrong bytes / shorter / longer) x payload size (0,1,2,4096,32767,32768,32769,160KiB) x source (memory / real file). For each: a dry run under strace lists every file syscall Put performs between two markers; then one run per syscall with SIGKILL at its entry (= halt between operations) and one per (syscall, errno). Plus RLIMIT_FSIZE short writes at 10 offsets, the index entry's write cut short after each of its 176 byte offsets followed by a halt (overwrites towards a larger and a smaller output at every offset, other starting states sampled), in-process hostile ReadSeekers (error / early EOF / flipped byte / failing Seek / shorter / longer second pass; a fifth of them on an output that this process saw damaged and then repaired; half of them on a cache whose files were last touched 61 min / 3 h / 50 h ago), and SIGKILL of a looping writer at random times. Non-trivial/distinct = distinct (configuration, fault kind, syscall index) whose injection was confirmed, from the injected run's own trace, to have landed on the intended syscall inside Put.")
+		r.Rule("configurations = scenario (new, overwrite, restore-same with a sharing entry, stale index entry, pre-damaged output: wrong bytes / shorter / longer) x payload size (0,1,2,4096,32767,32768,32769,160KiB) x source (memory / real file). For each: a dry run under strace lists every file syscall Put performs between two markers; then one run per syscall with SIGKILL at its entry (= halt between operations) and one per (syscall, errno). Plus a burst of 150 failing Puts in one process under a low descriptor limit with the collector off (unrelated entries must stay readable), RLIMIT_FSIZE short writes at 10 offsets, the index entry's write cut short after each of its 176 byte offsets followed by a halt (overwrites towards a larger and a smaller output at every offset, other starting states sampled), in-process hostile ReadSeekers (error / early EOF / flipped byte / failing Seek / shorter / longer second pass; a fifth of them on an output that this process saw damaged and then repaired; half of them on a cache whose files were last touched 61 min / 3 h / 50 h ago), and SIGKILL of a looping writer at random times. Non-trivial/distinct = distinct (configuration, fault kind, syscall index) whose injection was confirmed, from the injected run's own trace, to have landed on the intended syscall inside Put.")
 		r.Assume("crash = the process stops (SIGKILL); page-cache / power loss is out of scope (the code does not fsync)")
 		r.Assume("the cache keeps no in-memory state, so opening the directory afresh in the harness process is equivalent to a fresh verifier process")
 		if _, err := exec.LookPath("strace"); err != nil {
@@ -925,6 +980,7 @@ func main() {
 		}
 		icJobs := []icfg{{"overwrite", 40000, 2, 1}, {"overwrite", 3, 3, 1}, {"overwrite", 4096, 1, r.Pick(7, 1)}, {"new", 100, 0, r.Pick(7, 1)}, {"stale-index", 4096, 0, r.Pick(7, 1)}, {"restore-same", 32769, 0, r.Pick(7, 1)}}
 		vlib.Parallel(len(icJobs), W, func(i int) { indexCuts(base, icJobs[i].scenario, icJobs[i].size, icJobs[i].seed, icJobs[i].stride) })
+		failedPutBurst(base)
 		// hostile sources
 		nsf := r.Pick(600, 30000)
 		vlib.Parallel(W, W, func(w int) { sourceFaults(base, r.Rand(fmt.Sprintf("src-%d", w)), nsf/W) })
